@@ -46,7 +46,22 @@ class Register:
             )
         self._alias_from = alias_from
         self._alias_slice = alias_slice
+        if size is not None:
+            # The number of qubits is an integer, whether written as a literal
+            # or given by a let constant (possibly overridden).
+            if isinstance(size, AnnotatedValue):
+                if size.kind not in (ParamType.INT, ParamType.NONE):
+                    raise JaqalError(
+                        f"Cannot size register {name} with {size.name} of non-integer kind {size.kind}."
+                    )
+            elif not isinstance(size, int):
+                raise JaqalError(f"Size of register {name} must be an integer.")
         if alias_slice is not None:
+            for bound in (alias_slice.start, alias_slice.stop, alias_slice.step):
+                if bound is not None and not isinstance(bound, (int, AnnotatedValue)):
+                    raise JaqalError(
+                        f"Slice bounds of register {name} must be integers."
+                    )
             if (
                 isinstance(alias_slice.start, AnnotatedValue)
                 or isinstance(alias_slice.stop, AnnotatedValue)
